@@ -3,27 +3,30 @@ C07, several experiments in one invocation (`--bam_list` / `--yaml`) — resumin
 outputs of an uninterrupted one, for every experiment.
 
 Model: `IsoVerif.Model.Resume` (Model/ResumeMulti.lean): `runMulti` = lock removal for every experiment, `.params` saved
-once, then for every experiment the stages of Model/Resume.lean in the experiment's own folder; a resumed invocation goes
-through every experiment again.  The state the experiments share in the process (the alignment counter) is the
+once, the reference stage once (a plain-gzip reference is unpacked into the top-level folder, an index inside the folder is
+built: files every experiment reads), then for every experiment the stages of Model/Resume.lean in the experiment's own
+folder; a resumed invocation goes through the reference stage and every experiment again.  The state the experiments share in the process (the alignment counter) is the
 configuration flag `carried`, set by `mkExps` / `withCarried` from the experiments before.
 
 Full-strength statement (`resume_correct_multi`): for every list of well-formed experiments (any number, any
-configurations, any directory orders in either invocation) and every kill point `k ≥ 2` of the invocation's event list
-— inside any experiment —, the resumed invocation completes and the final files of **every** experiment equal those of
+configurations — with a plain-gzip reference and / or an index inside the folder as well —, any directory orders in either
+invocation) and every kill point `k ≥ 4` of the invocation's event list — inside the reference stage or inside any
+experiment —, the resumed invocation completes and the final files of **every** experiment equal those of
 the uninterrupted invocation.
 -/
 import IsoVerif.Lemmas.ResumeMulti
+import IsoVerif.Lemmas.ResumeOpts
 import IsoVerif.Props.C07
 
 namespace IsoVerif.Props.C07Multi
 open IsoVerif.Model.Resume IsoVerif.Lemmas.Resume IsoVerif.Props.C07
 
-/-- the experiments of an invocation: distinct indices, every configuration well formed with BAM input and a reference
-    pyfaidx reads directly (the unpacking of a plain-gzip reference — once per invocation, in the top-level folder — is
-    not part of Model/ResumeMulti.lean), every directory order duplicate free -/
+/-- the experiments of an invocation: distinct indices, every configuration well formed with BAM input, every directory
+    order duplicate free, and **one reference** for the invocation (`SameRef`: the flags "plain-gzip reference" and "index
+    inside the output folder" are those of the invocation's `--reference`, the same in every experiment) -/
 def MWF (exps : List Exp) : Prop :=
   (exps.map (fun x => x.1)).Nodup ∧
-    ∀ x ∈ exps, WF x.2.1 ∧ (x.2.1.fromSaves = false ∧ x.2.1.gzRef = false ∧ x.2.1.idx = false) ∧ x.2.2.Nodup
+    (∀ x ∈ exps, WF x.2.1 ∧ x.2.1.fromSaves = false ∧ x.2.2.Nodup) ∧ SameRef exps
 
 theorem idx_unique {exps : List Exp} (nd : (exps.map (fun x => x.1)).Nodup) {x y : Exp} (hx : x ∈ exps) (hy : y ∈ exps)
     (h : x.1 = y.1) : x = y := by
@@ -50,13 +53,25 @@ theorem MInv_same {a b : List Exp} (h : SameExps a b) {m : MFS} (hi : MInv a m) 
   have e2 : y.2.1 = x.2.1 := (Prod.mk.injEq _ _ _ _ ▸ e).2
   rw [← e1, ← e2]; exact hi y hy
 
+theorem SameRef_same {a b : List Exp} (h : SameExps a b) (hr : SameRef a) : SameRef b := by
+  have key : ∀ y ∈ b, ∃ x ∈ a, x.2.1 = y.2.1 := by
+    intro y hy
+    have : (y.1, y.2.1) ∈ a.map (fun x => (x.1, x.2.1)) := by rw [h]; exact List.mem_map.mpr ⟨y, hy, rfl⟩
+    obtain ⟨x, hx, e⟩ := List.mem_map.mp this
+    exact ⟨x, hx, (Prod.mk.injEq _ _ _ _ ▸ e).2⟩
+  intro y hy z hz
+  obtain ⟨x, hx, ex⟩ := key y hy
+  obtain ⟨w, hw, ew⟩ := key z hz
+  rw [← ex, ← ew]; exact hr x hx w hw
+
 /-- the state after `.params` has been written -/
 def afterParamsM (m : MFS) : MFS := mApplyAll m (paramsEvents fixed)
 
 /-- a (first or resumed) invocation from a state in which every experiment's folder satisfies the lock invariant —
     fresh: no locks anywhere, `.params` arbitrary; resumed: `.params` intact —: it completes, its events are the two
-    `.params` events followed by events along which the invariant of **all** experiments holds at every prefix, and the
-    final files of every experiment end up complete and correct -/
+    `.params` events followed by events (those of the reference stage, then those of the experiments) along which the
+    invariant of **all** experiments holds at every prefix, and the final files of every experiment end up complete and
+    correct -/
 theorem run_shape_multi {exps : List Exp} (hw : MWF exps) (rs : Bool) {m : MFS}
     (hJ : ∀ x ∈ exps, J0 x.2.1 (m.view x.1)) (hp : rs = true → m.params = some .good)
     (hcl : rs = false → ∀ x ∈ exps, lockList x.2.1 (m.view x.1) = []) :
@@ -75,8 +90,9 @@ theorem run_shape_multi {exps : List Exp} (hw : MWF exps) (rs : Bool) {m : MFS}
   -- the state after `.params`
   have hview : ∀ i p, p ≠ Path.params → p ≠ Path.paramsTmp → (afterParamsM m).view i p = m.view i p := by
     intro i p hp' hp''
-    by_cases hi : i = 0 <;>
-      simp [afterParamsM, paramsEvents, paramsEvs, fixed, mApplyAll, MFS.apply, IsoVerif.Model.Resume.apply, FS.set, Ev.path, MFS.view, hp', hp'', hi]
+    simp only [afterParamsM, paramsEvents, paramsEvs, fixed, if_true, List.map_cons, List.map_nil, mApplyAll]
+    rw [view_apply_priv _ _ _ _ (by simpa [Ev.path] using hp'), view_apply_priv _ _ _ _ (by simpa [Ev.path] using hp''),
+      view_apply_priv _ _ _ _ (by simpa [Ev.path] using hp''), view_apply_priv _ _ _ _ (by simpa [Ev.path] using hp'')]
   have hpar : (afterParamsM m).params = some .good := by
     simp [afterParamsM, paramsEvents, paramsEvs, fixed, mApplyAll, MFS.apply, Ev.path, Ev.val]
   have hinv : MInv exps (afterParamsM m) := by
@@ -97,12 +113,17 @@ theorem run_shape_multi {exps : List Exp} (hw : MWF exps) (rs : Bool) {m : MFS}
     cases rs with
     | false => rfl
     | true => simp [MFS.view, FS.loadable, hp rfl]
-  obtain ⟨ok, hall, _, hfin, _⟩ := runExps_good (all := exps) rs exps (fun x hx => hx) hw.1 hw.2
-    (fun x hx y hy e => by rw [idx_unique hw.1 hx hy e]) hinv
-  refine ⟨(runExps fixed rs exps (afterParamsM m)).evs, ?_, ?_, hall, ?_⟩
-  · simp only [runMulti, hclean, mApplyAll, hload, Bool.false_eq_true, if_false, List.nil_append]; rfl
-  · simp only [runMulti, hclean, mApplyAll, hload, Bool.false_eq_true, if_false]; exact ok
-  · simp only [runMulti, hclean, mApplyAll, hload, Bool.false_eq_true, if_false]; exact hfin
+  -- the reference stage of the invocation
+  obtain ⟨okr, allr, hrefok⟩ := runRef_good rs hw.2.2 hinv
+  obtain ⟨ok, hall, _, hfin, _⟩ := runExps_good (all := exps) rs exps (fun x hx => hx) hw.1 hw.2.1
+    (fun x hx y hy e => by rw [idx_unique hw.1 hx hy e]) (MAllP_last allr) hrefok
+  have hokr : (runRef fixed rs exps (mApplyAll m (paramsEvents fixed))).ok = true := okr
+  refine ⟨(runRef fixed rs exps (afterParamsM m)).evs.map (fun e => (0, e)) ++
+      (runExps fixed rs exps (mApplyAll (afterParamsM m) ((runRef fixed rs exps (afterParamsM m)).evs.map (fun e => (0, e))))).evs,
+    ?_, ?_, MAllP_append.mpr ⟨allr, hall⟩, ?_⟩
+  · simp only [runMulti, hclean, mApplyAll, hload, hokr, Bool.false_eq_true, if_false, if_true, List.nil_append]; rfl
+  · simp only [runMulti, hclean, mApplyAll, hload, hokr, Bool.false_eq_true, if_false, if_true]; exact ok
+  · simp only [runMulti, hclean, mApplyAll, hload, hokr, Bool.false_eq_true, if_false, if_true]; exact hfin
 
 theorem empty_view_lockList (cfg : Cfg) (i : Nat) : lockList cfg (MFS.empty.view i) = [] := by
   simp [lockList, MFS.view, MFS.empty, FS.has, FS.empty]
@@ -122,13 +143,14 @@ theorem crash_state_invariant_multi {exps : List Exp} (hw : MWF exps) (k : Nat) 
   rw [take_length_add, mApplyAll_append]
   exact MAllP_take hall k'
 
-/-- **the property for an invocation with several experiments**: started in a fresh output folder, killed after any
-    `k ≥ 2` events of the invocation (inside any experiment), resumed: the resumed invocation completes and the final
-    files of every experiment equal those of the uninterrupted invocation -/
-theorem resume_correct_multi {exps exps' : List Exp} (hw : MWF exps) (hw' : MWF exps') (hs : SameExps exps exps')
+/-- the core of the resume theorems: the resumed invocation works with experiments `exps'` whose configurations have the
+    same invariant and the same final files as those of the killed invocation -/
+theorem resume_correct_multi_core {exps exps' : List Exp} (hw : MWF exps) (hw' : MWF exps')
+    (hI : ∀ m, MInv exps m → MInv exps' m)
+    (hF : ∀ x ∈ exps, ∃ y ∈ exps', y.1 = x.1 ∧ finalPaths y.2.1 = finalPaths x.2.1)
     (hne : exps ≠ []) (k : Nat) (hk : 4 ≤ k) : verdictMulti fixed exps exps' MFS.empty k = .equal := by
   have hinv := crash_state_invariant_multi hw k hk
-  have hinv' : MInv exps' (crashMulti fixed exps MFS.empty k) := MInv_same hs hinv
+  have hinv' : MInv exps' (crashMulti fixed exps MFS.empty k) := hI _ hinv
   have hpar : (crashMulti fixed exps MFS.empty k).params = some .good := by
     cases exps with
     | nil => exact absurd rfl hne
@@ -143,16 +165,26 @@ theorem resume_correct_multi {exps exps' : List Exp} (hw : MWF exps) (hw' : MWF 
     simp only [sameFinalsMulti, sameFinals, List.all_eq_true, beq_iff_eq]
     intro x hx p hp
     -- the same experiment in the resumed invocation
-    have : (x.1, x.2.1) ∈ exps'.map (fun x => (x.1, x.2.1)) := by
-      rw [← hs]; exact List.mem_map.mpr ⟨x, hx, rfl⟩
-    obtain ⟨y, hy, e⟩ := List.mem_map.mp this
-    have e1 : y.1 = x.1 := (Prod.mk.injEq _ _ _ _ ▸ e).1
-    have e2 : y.2.1 = x.2.1 := (Prod.mk.injEq _ _ _ _ ▸ e).2
+    obtain ⟨y, hy, e1, e2⟩ := hF x hx
     have h1 := hfin y hy p (by rw [e2]; exact hp)
     have h2 := hfin1 x hx p hp
     simp only [FS.good, beq_iff_eq] at h1 h2
     rw [← e1, h1, e1, h2]
   simp [this]
+
+/-- **the property for an invocation with several experiments**: started in a fresh output folder, killed after any
+    `k ≥ 4` events of the invocation (inside the reference stage — while a plain-gzip reference is unpacked or its index
+    is built — or inside any experiment), resumed: the resumed invocation completes and the final files of every
+    experiment equal those of the uninterrupted invocation -/
+theorem resume_correct_multi {exps exps' : List Exp} (hw : MWF exps) (hw' : MWF exps') (hs : SameExps exps exps')
+    (hne : exps ≠ []) (k : Nat) (hk : 4 ≤ k) : verdictMulti fixed exps exps' MFS.empty k = .equal := by
+  apply resume_correct_multi_core hw hw' (fun m hi => MInv_same hs hi) ?_ hne k hk
+  intro x hx
+  have : (x.1, x.2.1) ∈ exps'.map (fun x => (x.1, x.2.1)) := by
+    rw [← hs]; exact List.mem_map.mpr ⟨x, hx, rfl⟩
+  obtain ⟨y, hy, e⟩ := List.mem_map.mp this
+  have e2 : y.2.1 = x.2.1 := (Prod.mk.injEq _ _ _ _ ▸ e).2
+  exact ⟨y, hy, (Prod.mk.injEq _ _ _ _ ▸ e).1, by rw [e2]⟩
 
 /-- safety half -/
 theorem resume_never_silently_wrong_multi {exps exps' : List Exp} (hw : MWF exps) (hw' : MWF exps') (hs : SameExps exps exps')
@@ -164,18 +196,76 @@ theorem resume_completes_multi {exps exps' : List Exp} (hw : MWF exps) (hw' : MW
     (hne : exps ≠ []) (k : Nat) (hk : 4 ≤ k) : verdictMulti fixed exps exps' MFS.empty k ≠ .fail := by
   rw [resume_correct_multi hw hw' hs hne k hk]; decide
 
+/-! ### the options of the resume command line -/
+
+/-- the experiments `b` of the resumed invocation are those of the killed invocation `a` under the options of the resume
+    command line (`resumeCfg`: `--high_memory` / `--keep_tmp` switched on by `--resume --high_memory` / `--resume --keep_tmp`,
+    one command line for the whole invocation), possibly with other directory orders -/
+def SameExpsOpts (hm kt : Bool) (a b : List Exp) : Prop :=
+  a.map (fun x => (x.1, resumeCfg x.2.1 hm kt)) = b.map (fun x => (x.1, x.2.1))
+
+/-- **the property for several experiments with the options of the resume command line**: the invocation is killed after
+    any `k ≥ 4` events and resumed with *any* choice of `--high_memory` and `--keep_tmp` on the resume command line: the
+    resumed invocation completes and the final files of every experiment equal those of the uninterrupted invocation with
+    the options of the killed one -/
+theorem resume_correct_multi_opts {exps exps' : List Exp} (hm kt : Bool) (hw : MWF exps) (hw' : MWF exps')
+    (hs : SameExpsOpts hm kt exps exps') (hne : exps ≠ []) (k : Nat) (hk : 4 ≤ k) :
+    verdictMulti fixed exps exps' MFS.empty k = .equal := by
+  apply resume_correct_multi_core hw hw' ?_ ?_ hne k hk
+  · intro m hi y hy
+    have : (y.1, y.2.1) ∈ exps.map (fun x => (x.1, resumeCfg x.2.1 hm kt)) := by
+      rw [hs]; exact List.mem_map.mpr ⟨y, hy, rfl⟩
+    obtain ⟨x, hx, e⟩ := List.mem_map.mp this
+    have e1 : x.1 = y.1 := (Prod.mk.injEq _ _ _ _ ▸ e).1
+    have e2 : resumeCfg x.2.1 hm kt = y.2.1 := (Prod.mk.injEq _ _ _ _ ▸ e).2
+    rw [← e1, ← e2]; exact (J_resumeCfg hm kt).mpr (hi x hx)
+  · intro x hx
+    have : (x.1, resumeCfg x.2.1 hm kt) ∈ exps'.map (fun x => (x.1, x.2.1)) := by
+      rw [← hs]; exact List.mem_map.mpr ⟨x, hx, rfl⟩
+    obtain ⟨y, hy, e⟩ := List.mem_map.mp this
+    have e2 : y.2.1 = resumeCfg x.2.1 hm kt := (Prod.mk.injEq _ _ _ _ ▸ e).2
+    exact ⟨y, hy, (Prod.mk.injEq _ _ _ _ ▸ e).1, by rw [e2, finalPaths_resumeCfg]⟩
+
+/-- the options of the resume command line keep an invocation well formed -/
+theorem MWF_opts {exps exps' : List Exp} (hm kt : Bool) (hw : MWF exps) (hs : SameExpsOpts hm kt exps exps')
+    (hord : ∀ y ∈ exps', y.2.2.Nodup) : MWF exps' := by
+  have key : ∀ y ∈ exps', ∃ x ∈ exps, x.1 = y.1 ∧ resumeCfg x.2.1 hm kt = y.2.1 := by
+    intro y hy
+    have : (y.1, y.2.1) ∈ exps.map (fun x => (x.1, resumeCfg x.2.1 hm kt)) := by
+      rw [hs]; exact List.mem_map.mpr ⟨y, hy, rfl⟩
+    obtain ⟨x, hx, e⟩ := List.mem_map.mp this
+    exact ⟨x, hx, (Prod.mk.injEq _ _ _ _ ▸ e).1, (Prod.mk.injEq _ _ _ _ ▸ e).2⟩
+  refine ⟨?_, ?_, ?_⟩
+  · have h1 : exps'.map (fun x => x.1) = (exps'.map (fun x => (x.1, x.2.1))).map Prod.fst := by
+      rw [List.map_map]; rfl
+    have h2 : exps.map (fun x => x.1) = (exps.map (fun x => (x.1, resumeCfg x.2.1 hm kt))).map Prod.fst := by
+      rw [List.map_map]; rfl
+    rw [h1, ← hs, ← h2]; exact hw.1
+  · intro y hy
+    obtain ⟨x, hx, _, e2⟩ := key y hy
+    obtain ⟨wf, hf, _⟩ := hw.2.1 x hx
+    rw [← e2]; exact ⟨WF_resumeCfg hm kt wf, hf, hord y hy⟩
+  · intro y hy z hz
+    obtain ⟨x, hx, _, ex⟩ := key y hy
+    obtain ⟨w, hw', _, ew⟩ := key z hz
+    rw [← ex, ← ew]; exact hw.2.2 x hx w hw'
+
 /-! ### the counter that is not reset: witness; non-vacuity -/
 
 /-- two experiments, both the toy configuration with unaligned reads -/
 def exps2 : List Exp := mkExps [cfg1, cfg1] [ord1, ord1]
 
 theorem exps2_wf : MWF exps2 := by
-  refine ⟨by decide, ?_⟩
-  intro x hx
-  simp only [exps2, mkExps, withCarried, List.zip_cons_cons, List.zip_nil_right, List.zipIdx_cons, List.zipIdx_nil,
-    List.map_cons, List.map_nil, List.mem_cons, List.not_mem_nil, or_false] at hx
-  rcases hx with rfl | rfl <;>
-    exact ⟨⟨by decide, by decide, by decide, fun _ => Iff.rfl, fun _ _ h => h⟩, ⟨rfl, rfl, rfl⟩, by decide⟩
+  refine ⟨by decide, ?_, ?_⟩
+  · intro x hx
+    simp only [exps2, mkExps, withCarried, List.zip_cons_cons, List.zip_nil_right, List.zipIdx_cons, List.zipIdx_nil,
+      List.map_cons, List.map_nil, List.mem_cons, List.not_mem_nil, or_false] at hx
+    rcases hx with rfl | rfl <;>
+      exact ⟨⟨by decide, by decide, by decide, fun _ => Iff.rfl, fun _ _ h => h⟩, rfl, by decide⟩
+  · intro x hx y hy
+    simp only [exps2, mkExps, withCarried, List.zip_cons_cons, List.zip_nil_right, List.zipIdx_cons, List.zipIdx_nil,
+      List.map_cons, List.map_nil, List.mem_cons, List.not_mem_nil, or_false] at hx hy
+    rcases hx with rfl | rfl <;> rcases hy with rfl | rfl <;> exact ⟨rfl, rfl⟩
 
 /-- `mkExps` marks the second experiment: the first one has unaligned reads -/
 example : exps2.map (fun x => (x.1, x.2.1.carried)) = [(0, false), (1, true)] := by decide
@@ -193,5 +283,62 @@ theorem resume_never_silently_wrong_two_experiments_witness :
 example : MWF exps2 ∧ (runMulti fixed exps2 false MFS.empty).evs.length = 186 ∧ 4 ≤ 109 ∧
     verdictMulti fixed exps2 exps2 MFS.empty 109 = .equal :=
   ⟨exps2_wf, by decide +kernel, by omega, resume_correct_multi exps2_wf exps2_wf rfl (by decide) 109 (by omega)⟩
+
+/-! ### a plain-gzip reference with its index inside the folder, two experiments -/
+
+/-- the toy configuration with a plain-gzip reference: the copy and its index are written into the output folder -/
+def cfg1g : Cfg := { cfg1 with gzRef := true, idx := true }
+def exps2g : List Exp := mkExps [cfg1g, cfg1g] [ord1, ord1]
+/-- the same invocation resumed with `--resume --high_memory --keep_tmp` -/
+def exps2gO : List Exp := mkExps [resumeCfg cfg1g true true, resumeCfg cfg1g true true] [ord1, ord1]
+
+theorem exps2g_wf : MWF exps2g := by
+  refine ⟨by decide, ?_, ?_⟩
+  · intro x hx
+    simp only [exps2g, mkExps, withCarried, List.zip_cons_cons, List.zip_nil_right, List.zipIdx_cons, List.zipIdx_nil,
+      List.map_cons, List.map_nil, List.mem_cons, List.not_mem_nil, or_false] at hx
+    rcases hx with rfl | rfl <;>
+      exact ⟨⟨by decide, by decide, by decide, fun _ => Iff.rfl, fun _ _ h => h⟩, rfl, by decide⟩
+  · intro x hx y hy
+    simp only [exps2g, mkExps, withCarried, List.zip_cons_cons, List.zip_nil_right, List.zipIdx_cons, List.zipIdx_nil,
+      List.map_cons, List.map_nil, List.mem_cons, List.not_mem_nil, or_false] at hx hy
+    rcases hx with rfl | rfl <;> rcases hy with rfl | rfl <;> exact ⟨rfl, rfl⟩
+
+theorem exps2g_opts : SameExpsOpts true true exps2g exps2gO := rfl
+
+theorem exps2gO_wf : MWF exps2gO := by
+  apply MWF_opts true true exps2g_wf exps2g_opts
+  intro y hy
+  simp only [exps2gO, mkExps, withCarried, List.zip_cons_cons, List.zip_nil_right, List.zipIdx_cons, List.zipIdx_nil,
+    List.map_cons, List.map_nil, List.mem_cons, List.not_mem_nil, or_false] at hy
+  rcases hy with rfl | rfl <;> decide
+
+/-- the reference stage happens once, right after `.params`: events 5–7 unpack the copy, 8–12 build and install its index;
+    the first experiment starts with event 13; the second experiment performs no event on these files -/
+example : ((runMulti fixed exps2g false MFS.empty).evs.take 12).drop 4 =
+    [(0, .create .refFa), (0, .commit .refFa .stale), (0, .commit .refFa .good), (0, .create .refFaiTmp),
+     (0, .commit .refFaiTmp .good), (0, .remove .refFaiTmp), (0, .commit .refFaiData .good), (0, .commit .refFai .good)] ∧
+    (runMulti fixed exps2g false MFS.empty).evs.length = 194 ∧
+    ((runMulti fixed exps2g false MFS.empty).evs.drop 12).all (fun x => !isRefPath x.2.path) = true := by decide +kernel
+
+-- the hypotheses of `resume_correct_multi` / `resume_correct_multi_opts` are met by an invocation with a plain-gzip
+-- reference: killed while the copy holds its first pieces (6), between the content and the name of the index (11),
+-- inside the second experiment (117: its stage lock); resumed with `--high_memory --keep_tmp` as well
+example : MWF exps2g ∧ 4 ≤ 6 ∧ verdictMulti fixed exps2g exps2g MFS.empty 6 = .equal ∧
+    verdictMulti fixed exps2g exps2g MFS.empty 11 = .equal ∧
+    (runMulti fixed exps2g false MFS.empty).evs[116]? = some (1, .create .lock) ∧
+    verdictMulti fixed exps2g exps2g MFS.empty 117 = .equal ∧
+    verdictMulti fixed exps2g exps2gO MFS.empty 117 = .equal :=
+  ⟨exps2g_wf, by omega, resume_correct_multi exps2g_wf exps2g_wf rfl (by decide) 6 (by omega),
+   resume_correct_multi exps2g_wf exps2g_wf rfl (by decide) 11 (by omega), by decide +kernel,
+   resume_correct_multi exps2g_wf exps2g_wf rfl (by decide) 117 (by omega),
+   resume_correct_multi_opts true true exps2g_wf exps2gO_wf exps2g_opts (by decide) 117 (by omega)⟩
+
+/-- the code before the reference repair (a resumed invocation trusts whatever carries the name of the copy), two
+    experiments: killed while the copy holds its first pieces (event 6), the resumed invocation computes **both**
+    experiments from the cut reference and exits successfully; killed after the reference stage nothing is wrong -/
+theorem resume_never_silently_wrong_multi_ref_witness :
+    verdictMulti { fixed with refRewrite := false } exps2g exps2g MFS.empty 6 = .diff ∧
+    verdictMulti { fixed with refRewrite := false } exps2g exps2g MFS.empty 13 = .equal := by decide +kernel
 
 end IsoVerif.Props.C07Multi
